@@ -26,7 +26,7 @@ TRUSTED = ["Python logging (Logger.log, LogRecord.getMessage, propagation to the
            "argument; the generators stay inside that fragment for user formats "
            "(scope names are arbitrary)",
            "harness/metrics_common.py (event language, spec replay, runner, capturing handlers) + harness/comp_logs.py monitor"]
-ASSUMPTIONS = ["trace ids given to ctx.scope are non-empty strings", "supplied loggers and the root logger let every level through (level DEBUG)",
+ASSUMPTIONS = ["trace ids given to ctx.scope are non-empty strings", "supplied loggers and the root logger let every level through (level DEBUG) at the time of each ctx.log_* call; in half of the cases they are at WARNING while scopes are built / entered / left and opened up only around the log calls (catches C19-x3: effective level cached at scope creation)",
                "scope names are not 'root' and do not look like the supplied loggers' names (L0..L2)"]
 
 NAMES = ["", "svc", "a", "50%", "%s", "%d", "100%_done", "a[b]", "[x]_%r", "%(x)s", "%%", "x.y", "q%", "%_s", "db%5d", "n_m"]
